@@ -58,29 +58,37 @@ def Line.kind : Line → Option String
   | .comment _ => none
   | .uri _ => none
 
-/-- the parser behind each arm of `Tag::try_from` -/
+/-- the parser behind each arm of `Tag::try_from`, by `Tag` variant name -/
+def tagParsers : List (String × (Str → Res Line)) := [
+  ("ExtXVersion", fun s => (ExtXVersion.parse s).map .version),
+  ("ExtInf", fun s => (ExtInf.parse s).map .inf),
+  ("ExtXByteRange", fun s => (ExtXByteRange.parse s).map .byteRange),
+  ("ExtXDiscontinuitySequence", fun s => (ExtXDiscontinuitySequence.parse s).map .discontinuitySequence),
+  ("ExtXDiscontinuity", fun s => (ExtXDiscontinuity.parse s).map fun _ => .discontinuity),
+  ("ExtXKey", fun s => (ExtXKey.parse s).map .key),
+  ("ExtXMap", fun s => (ExtXMap.parse s).map .map),
+  ("ExtXProgramDateTime", fun s => (ExtXProgramDateTime.parse s).map .programDateTime),
+  ("ExtXTargetDuration", fun s => (ExtXTargetDuration.parse s).map .targetDuration),
+  ("ExtXDateRange", fun s => (ExtXDateRange.parse s).map .dateRange),
+  ("ExtXMediaSequence", fun s => (ExtXMediaSequence.parse s).map .mediaSequence),
+  ("ExtXEndList", fun s => (flagTag.parse pfxEndList s).map fun _ => .endList),
+  ("PlaylistType", fun s => (PlaylistType.parse s).map .playlistType),
+  ("ExtXIFramesOnly", fun s => (flagTag.parse pfxIFramesOnly s).map fun _ => .iFramesOnly),
+  ("ExtXMedia", fun s => (ExtXMedia.parse s).map .media),
+  ("VariantStream", fun s => (VariantStream.parse s).map .variant),
+  ("ExtXSessionData", fun s => (ExtXSessionData.parse s).map .sessionData),
+  ("ExtXSessionKey", fun s => (ExtXSessionKey.parse s).map .sessionKey),
+  ("ExtXIndependentSegments", fun s => (flagTag.parse pfxIndependentSegments s).map fun _ => .independentSegments),
+  ("ExtXStart", fun s => (ExtXStart.parse s).map .start)]
+
+def lookupParser (kind : String) : List (String × (Str → Res Line)) → Option (Str → Res Line)
+  | [] => none
+  | (k, p) :: rest => if k == kind then some p else lookupParser kind rest
+
 def tagParser (kind : String) (s : Str) : Res Line :=
-  if kind == "ExtXVersion" then (ExtXVersion.parse s).map .version
-  else if kind == "ExtInf" then (ExtInf.parse s).map .inf
-  else if kind == "ExtXByteRange" then (ExtXByteRange.parse s).map .byteRange
-  else if kind == "ExtXDiscontinuitySequence" then (ExtXDiscontinuitySequence.parse s).map .discontinuitySequence
-  else if kind == "ExtXDiscontinuity" then (ExtXDiscontinuity.parse s).map fun _ => .discontinuity
-  else if kind == "ExtXKey" then (ExtXKey.parse s).map .key
-  else if kind == "ExtXMap" then (ExtXMap.parse s).map .map
-  else if kind == "ExtXProgramDateTime" then (ExtXProgramDateTime.parse s).map .programDateTime
-  else if kind == "ExtXTargetDuration" then (ExtXTargetDuration.parse s).map .targetDuration
-  else if kind == "ExtXDateRange" then (ExtXDateRange.parse s).map .dateRange
-  else if kind == "ExtXMediaSequence" then (ExtXMediaSequence.parse s).map .mediaSequence
-  else if kind == "ExtXEndList" then (flagTag.parse pfxEndList s).map fun _ => .endList
-  else if kind == "PlaylistType" then (PlaylistType.parse s).map .playlistType
-  else if kind == "ExtXIFramesOnly" then (flagTag.parse pfxIFramesOnly s).map fun _ => .iFramesOnly
-  else if kind == "ExtXMedia" then (ExtXMedia.parse s).map .media
-  else if kind == "VariantStream" then (VariantStream.parse s).map .variant
-  else if kind == "ExtXSessionData" then (ExtXSessionData.parse s).map .sessionData
-  else if kind == "ExtXSessionKey" then (ExtXSessionKey.parse s).map .sessionKey
-  else if kind == "ExtXIndependentSegments" then (flagTag.parse pfxIndependentSegments s).map fun _ => .independentSegments
-  else if kind == "ExtXStart" then (ExtXStart.parse s).map .start
-  else .err
+  match lookupParser kind tagParsers with
+  | some p => p s
+  | none => .err
 
 /-- `Tag::try_from`: first matching prefix in source order, else `Unknown` -/
 def dispatchIn : List (String × String) → Str → Res Line
